@@ -143,6 +143,13 @@ func (s *Server) setSettings(settings serverSettings) {
 	if s.loader != nil {
 		s.loader.SetLimits(settings.Limits)
 	}
+	if oldSettings.Limits != settings.Limits {
+		// include trees resolved under the old limits no longer apply
+		s.resolved.Range(func(key, _ any) bool {
+			s.resolved.Delete(key)
+			return true
+		})
+	}
 	if oldSettings.CLI.Path != settings.CLI.Path || oldSettings.CLI.Timeout != settings.CLI.Timeout {
 		s.reinitCLI(settings.CLI)
 	}
